@@ -573,7 +573,7 @@ def run_C09(ctx):
     replay_exec(ctx, "ctx", recs, ["interp", "jit", "cl"])
 
 
-def replay_verdicts(ctx, tag, recs):
+def replay_verdicts(ctx, tag, recs, keep=None):
     if not recs:
         raise ToolError(f"no verdict records for {tag}")
     path = os.path.join(ctx.workdir, f"{tag}.verdicts.ndjson")
@@ -588,7 +588,8 @@ def replay_verdicts(ctx, tag, recs):
     for s_ in rep["samples"]:
         ctx.sample(s_)
     for f in rep["failures"]:
-        ctx.violation(f["reason"], {"kind": "verdict", "record": f["record"], "observed": f["observed"]})
+        if keep is None or keep(f):
+            ctx.violation(f["reason"], {"kind": "verdict", "record": f["record"], "observed": f["observed"]})
     return rep
 
 
@@ -709,6 +710,13 @@ def run_C05(ctx):
     ctx.add_tlc("MC_Exec with PROPERTY CFRefinement", rr)
     # binding: every program of the universe through the real verifier and, if accepted, the real interpreter
     replay_verdicts(ctx, "universe", r.replay)
+    # ... and the displacement sweeps of MC_Verdict (jumps and local calls at every boundary of the
+    # 16- and 32-bit fields, near and far): whatever the REAL verifier accepts is run; a wrong verdict
+    # alone is C06's business, a crash after acceptance is C05's
+    rv_ = run_tlc(f"{ctx.prop}-disp", "MC_Verdict", {"Fams": {2, 5, 7}, "Seed": ctx.seed, "Rate": 4 if ctx.quick else 1},
+                  invariants=["Inv"], workers=6, timeout=1500)
+    ctx.add_tlc("MC_Verdict families 2, 5, 7 (displacement sweeps)", rv_)
+    replay_verdicts(ctx, "disp", rv_.replay, keep=lambda f: "crashed the interpreter" in f["reason"] or "panic" in f["reason"])
     tlaps_safety(ctx)
     extra_C05(ctx)
 
